@@ -149,6 +149,35 @@ Definition run_c19_sharp (args : list sx) : sx :=
     ret (L [I limit; I size; sx_bool (accepts limit size)])
   | _ => None end).
 
+(* ("c19.wiring" id (offs) cfg...): a suite with one single-message size directive per offset run
+   through the runner's own path (parseTestSuites -> library -> server_runner -> reference peers).
+   Every such request is paddable (bases of the suite's messages are far from limit + off and the
+   windows used avoid the unreachable sizes; an unreachable one shows as a rejected suite).
+   Result per offset: (limit size accepted), size as produced by `expand` for a base-0 message
+   = the target itself. *)
+Definition wiring_one (limit off : Z) : option sx :=
+  match expand 0 0 (limit + off) with
+  | POk n => Some (L [I limit; I (msg_size 0 n); sx_bool (accepts limit (msg_size 0 n))])
+  | _ => None
+  end.
+
+Fixpoint wiring_all (limit : Z) (offs : list Z) : option (list sx) :=
+  match offs with
+  | [] => Some []
+  | o :: os => do r <- wiring_one limit o; do rs <- wiring_all limit os; ret (r :: rs)
+  end.
+
+Definition run_c19_wiring (args : list sx) : sx :=
+  or_bad (match args with
+  | offs :: _ =>
+    do offs <- un_listof un_Z offs;
+    ret (match wiring_all c19_server_receive_limit offs with
+         | Some rs => L rs
+         | None => sx_err "unreachable"       (* the suite as a whole is rejected *)
+         end)
+  | _ => None end).
+
 Definition c19_table : list (bytes * (list sx -> sx)) :=
   [ (bs "c19.expand", run_c19_expand);
-    (bs "c19.sharp", run_c19_sharp) ].
+    (bs "c19.sharp", run_c19_sharp);
+    (bs "c19.wiring", run_c19_wiring) ].
